@@ -235,6 +235,7 @@ func streamMsgReal(c *ctx) {
 	}
 	contexts := map[string]string{"KSign1": "Signature1", "KSign": "Signature", "KMac0": "MAC0", "KMac": "MAC", "KEnc0": "Encrypt0", "KEnc": "Encrypt"}
 	rounds := c.n(2, 12)
+	extSweep := 0
 	var msgs []realMsg
 	for round := 0; round < rounds; round++ {
 		for _, alg := range algs {
@@ -294,6 +295,12 @@ func streamMsgReal(c *ctx) {
 					// CCM switches to the 6-byte length encoding of the additional data at 0xff00 bytes
 					ext = c.r.bytes(pick(c.r, []int{65300, 65262, 65263, 66000}))
 				}
+				if extSweep%4 == 3 {
+					// external data at the ends of the CBOR length classes (23 / 24, 255 / 256, 65535 / 65536), chosen without
+					// touching the random stream
+					ext = genBytes(uint64(extSweep), []int{23, 24, 255, 256, 65535, 65536}[(extSweep/4)%6])
+				}
+				extSweep++
 				line := short(fmt.Sprintf("real|%s|alg=%d|prot=%s|unprot=%s|payload=%d bytes|ext=%x", kind, alg, describe(prot), describe(unprot), plen, ext))
 				var seen [][]byte
 				var data []byte
